@@ -10,7 +10,7 @@
     unbounded [Z] in the model (strings with 8*len+7 >= 2^31 are outside the
     statement: their bit positions do not fit New's int32 arguments). *)
 From Coq Require Import ZArith List Bool.
-From Low Require Import Lib.MachInt Lib.Bits Lib.BitSeq Lib.Bytes Lib.Lex Lib.Pack_bw Lib.Val Model.Bitstr Model.Bitstr32 Spec.BitstrSpec Spec.BitstrSearchSpec Proofs.BitstrProofs Proofs.BitstrSearchProofs Proofs.Bitstr32Proofs.
+From Low Require Import Lib.MachInt Lib.Bits Lib.BitSeq Lib.Bytes Lib.Lex Lib.Pack_bw Lib.Val Model.Bitstr Model.Bitstr32 Spec.BitstrSpec Spec.BitstrSearchSpec Spec.BitstrDecodeSpec Proofs.BitstrProofs Proofs.BitstrSearchProofs Proofs.Bitstr32Proofs Proofs.BitstrDecodeProofs.
 Import ListNotations.
 Open Scope Z_scope.
 
@@ -81,6 +81,12 @@ Theorem C09_StrCmpUpto : forall a b, StrCmpUpto a b = CmpUpto a b.
 Proof. exact StrCmpUpto_eq. Qed.
 Print Assumptions C09_StrCmpUpto.
 
+(** hence StrCmpUpto has CmpUpto's meaning (in the model; see the remark above) *)
+Theorem C09_strcmpupto : forall a b, bytes_ok a ->
+  StrCmpUpto a (encB b) = Some (cmp_sign (bits_cmp (upto a b) b)).
+Proof. exact StrCmpUpto_encB. Qed.
+Print Assumptions C09_strcmpupto.
+
 (** cmpBytes is bytes.Compare on both sides of its 8-byte switch, on every call
     whose manual loop stays in range (all calls CmpUpto makes) … *)
 Theorem C09_cmpBytes : forall a b, (length a <= length b)%nat \/ 8 <= zlen a ->
@@ -99,6 +105,12 @@ Theorem C09_len_new : forall s f t, bytes_ok s -> 0 <= f <= t -> t <= 8 * zlen s
   match New s f t with Some e => Len e | None => None end = Some (spec_Len s f t).
 Proof. exact Len_New. Qed.
 Print Assumptions C09_len_new.
+
+(** … whose value is to - 8*floor(from/8) *)
+Theorem C09_len_new_value : forall s f t, bytes_ok s -> 0 <= f <= t -> t <= 8 * zlen s ->
+  match New s f t with Some e => Len e | None => None end = Some (t - 8 * (f / 8)).
+Proof. exact Len_New_value. Qed.
+Print Assumptions C09_len_new_value.
 
 Theorem C09_cmp_new : forall s1 f1 t1 s2 f2 t2,
   bytes_ok s1 -> 0 <= f1 <= t1 -> t1 <= 8 * zlen s1 ->
@@ -153,6 +165,16 @@ Theorem C09_cmp_new_extend : forall s t1 t2, bytes_ok s -> 0 <= t1 <= t2 -> t2 <
 Proof. exact Cmp_New_extend. Qed.
 Print Assumptions C09_cmp_new_extend.
 
+(** a whole string encodes as itself plus 0xff, and on whole strings Cmp is Go's string order *)
+Theorem C09_new_whole : forall s, bytes_ok s -> New s 0 (8 * zlen s) = Some (s ++ [255]).
+Proof. exact New_whole. Qed.
+Print Assumptions C09_new_whole.
+
+Theorem C09_cmp_whole : forall x y, bytes_ok x -> bytes_ok y ->
+  Cmp (x ++ [255]) (y ++ [255]) = Some (cmp_sign (bytes_cmp x y)).
+Proof. exact Cmp_whole. Qed.
+Print Assumptions C09_cmp_whole.
+
 (** * WIDENED: the int32 arithmetic of New / Len made explicit (Model/Bitstr32.v; the
     protocol operations run this model) *)
 
@@ -189,6 +211,46 @@ Theorem C09_new_full_int32_range_refuted : exists s f t,
   bytes_ok s /\ 0 <= f <= t /\ t <= 8 * zlen s /\ in_i32 f /\ in_i32 t /\ New32 s f t = None.
 Proof. exact New32_top_witness. Qed.
 Print Assumptions C09_new_full_int32_range_refuted.
+
+(** * WIDENED: the encodings as a decidable set of byte strings, and decoding
+    ([wf_enc], [decB] of Spec/BitstrDecodeSpec.v) *)
+
+(** the canonical encodings are exactly the well-formed byte strings … *)
+Theorem C09_wf_iff : forall e, wf_enc e = true <-> exists b, e = encB b.
+Proof. exact wf_iff. Qed.
+Print Assumptions C09_wf_iff.
+
+(** … decoding inverts encoding, both ways … *)
+Theorem C09_decode_encode : forall b, decB (encB b) = b.
+Proof. exact decB_encB. Qed.
+Print Assumptions C09_decode_encode.
+
+Theorem C09_encode_decode : forall e, wf_enc e = true -> encB (decB e) = e.
+Proof. exact encB_decB. Qed.
+Print Assumptions C09_encode_decode.
+
+(** … New produces a well-formed encoding that decodes to the bits of the range
+    (op bitstr.New/decode) … *)
+Theorem C09_new_decodes : forall s f t e, bytes_ok s -> 0 <= f <= t -> t <= 8 * zlen s ->
+  New s f t = Some e -> wf_enc e = true /\ decB e = B s f t.
+Proof. exact New_wf. Qed.
+Print Assumptions C09_new_decodes.
+
+(** … and Len / Cmp / CmpUpto on ANY well-formed byte strings are length / order /
+    truncated order of the bit strings they denote *)
+Theorem C09_len_wf : forall e, wf_enc e = true -> Len e = Some (zlen (decB e)).
+Proof. exact Len_wf. Qed.
+Print Assumptions C09_len_wf.
+
+Theorem C09_cmp_wf : forall e1 e2, wf_enc e1 = true -> wf_enc e2 = true ->
+  Cmp e1 e2 = Some (cmp_sign (bits_cmp (decB e1) (decB e2))).
+Proof. exact Cmp_wf. Qed.
+Print Assumptions C09_cmp_wf.
+
+Theorem C09_cmpupto_wf : forall a e, bytes_ok a -> wf_enc e = true ->
+  CmpUpto a e = Some (cmp_sign (bits_cmp (upto a (decB e)) (decB e))).
+Proof. exact CmpUpto_wf. Qed.
+Print Assumptions C09_cmpupto_wf.
 
 (** * non-vacuity: the hypotheses are satisfiable and the statements say something
     ("abc" = 0x61 0x62 0x63; the doc example New("abc", 5, 12)) *)
@@ -268,3 +330,14 @@ Example C09_new32_nonvacuous :
 Proof.
   repeat match goal with |- _ /\ _ => split end; try (vm_compute; reflexivity); vm_compute; congruence.
 Qed.
+
+Example C09_decode_nonvacuous :
+  wf_enc [0x61; 0x60; 0xf0] = true /\
+  decB [0x61; 0x60; 0xf0] = [false; true; true; false; false; false; false; true; false; true; true; false] /\
+  wf_enc [0xff] = true /\ decB [0xff] = [] /\
+  (* not encodings: no mask byte / a mask that is not a run of high bits / bits outside the mask /
+     no payload but a partial mask / a non-byte *)
+  wf_enc [] = false /\ wf_enc [0x61; 0x0f] = false /\ wf_enc [0x61; 0x68; 0xf0] = false /\
+  wf_enc [0xf0] = false /\ wf_enc [256; 0xff] = false /\
+  Cmp [0x61; 0x60; 0xf0] [0x61; 0x60; 0xf8] = Some (-1).
+Proof. repeat match goal with |- _ /\ _ => split end; vm_compute; reflexivity. Qed.
